@@ -81,7 +81,7 @@ Proof. vm_compute. repeat split; reflexivity. Qed.
 (* ------------------------------------------------------------------------------------------------------
    Added in build session 4 (statements re-stated from the proof files by harness tooling; each is closed by
    exact). *)
-From SplipyModel Require Import Proofs.ObjEval Proofs.SplitTiling Proofs.RestrictDirEval Proofs.SplitEndToEnd Proofs.SplitCompose Transfer.ParamObj Transfer.ParamOps Transfer.ParamOps2.
+From SplipyModel Require Import Proofs.ObjEval Proofs.SplitTiling Proofs.RestrictDirEval Proofs.SplitEndToEnd Proofs.SplitCompose Transfer.ParamObj Transfer.ParamOps Transfer.ParamOps2 Proofs.PeriodicInsert Proofs.PeriodicSplit.
 Open Scope R_scope.
 Theorem C07_split_insert_spec :
   forall (tol : R) (o : obj R) (d p : nat) (k ks : list R),
@@ -230,4 +230,105 @@ Theorem C07_executed_is_proved_append :
          resmap objQ2R (obj_append tol o1 o2) = obj_append (Q2R tol) (objQ2R o1) (objQ2R o2).
 Proof. exact @obj_append_transfer. Qed.
 Print Assumptions C07_executed_is_proved_append.
+
+Theorem C07_roll_opens_periodic_basis :
+  forall (k : list R) (p per1 n : nat) (T x : R),
+         per_canon k p per1 n T ->
+         kn k (p - 1) <= x < kn k (n + per1) ->
+         mult k x = p ->
+         let mu := py_bisect_left k x in
+         let ko := kopen k p per1 mu in
+         (mu + p <= n + per1)%nat /\
+         length ko = (n + p)%nat /\
+         sorted (kn ko) /\
+         (forall j : nat, (j < n + p)%nat -> nth j ko 0 = pext k n T (mu + j)) /\
+         (forall j : nat, (j < p)%nat -> kn ko j = x /\ kn ko (n + j) = x + T) /\
+         b_start {| b_order := p; b_knots := ko; b_per1 := 0 |} = x /\
+         b_end {| b_order := p; b_knots := ko; b_per1 := 0 |} = x + T /\
+         b_nfun {| b_order := p; b_knots := ko; b_per1 := 0 |} = n /\
+         (forall (side : bool) (t t' : R),
+          SeamContinuity.after_start side x t ->
+          SeamContinuity.before_end side t (x + T) ->
+          t' = t \/ t' = t - T ->
+          SeamContinuity.after_start side (kn k (p - 1)) t' ->
+          SeamContinuity.before_end side t' (kn k (n + per1)) ->
+          row_rel (ref_row side k p per1 0 t') (ref_row side ko p 0 0 t) (roll_matrix n mu)).
+Proof. exact @roll_open_basis. Qed.
+Print Assumptions C07_roll_opens_periodic_basis.
+
+Theorem C07_split_periodic_single :
+  forall (tol : R) (o : obj R) (d p per1 n : nat) (T : R) (k : list R) (x : R) (fuel : nat),
+         psplit_hyps tol o d p per1 n T k x [] ->
+         (1 <= fuel)%nat ->
+         exists o1 : obj R,
+           obj_split fuel tol o d [x] = Ok [o1] /\
+           wf_obj_R tol o1 /\
+           length (o_bases o1) = length (o_bases o) /\
+           (forall i : nat, i <> d -> nth i (o_bases o1) dflt_basis = nth i (o_bases o) dflt_basis) /\
+           (let b1 := nth d (o_bases o1) dflt_basis in
+            b_order b1 = p /\
+            b_per1 b1 = 0%nat /\
+            b_start b1 = x /\
+            b_end b1 = x + T /\
+            (forall ts : list R,
+             (forall i : nat,
+              (i < length (o_bases o))%nat -> i <> d -> in_dom tol (nth i (o_bases o) dflt_basis) (nth i ts 0)) ->
+             x <= nth d ts 0 < x + T ->
+             per_param_ok tol k per1 n T [x] (nth d ts 0) ->
+             (nth d ts 0 = kn k (n + per1) -> (mult k (kn k (p - 1)) <= p - 1)%nat) ->
+             obj_eval tol o1 ts = obj_eval tol o ts)).
+Proof. exact @split_periodic_single. Qed.
+Print Assumptions C07_split_periodic_single.
+
+Theorem C07_split_periodic :
+  forall (tol : R) (o : obj R) (d p per1 n : nat) (T : R) (k : list R) (x0 : R) (rest : list R) (fuel : nat),
+         psplit_hyps tol o d p per1 n T k x0 rest ->
+         (2 <= fuel)%nat ->
+         exists pieces : list (obj R),
+           obj_split fuel tol o d (x0 :: rest) = Ok pieces /\
+           length pieces = S (length rest) /\
+           (forall j : nat,
+            (j <= length rest)%nat ->
+            let pj := nth j pieces o in
+            let bj := nth d (o_bases pj) dflt_basis in
+            wf_obj_R tol pj /\
+            length (o_bases pj) = length (o_bases o) /\
+            (forall i : nat, i <> d -> nth i (o_bases pj) dflt_basis = nth i (o_bases o) dflt_basis) /\
+            b_order bj = p /\
+            b_per1 bj = 0%nat /\
+            b_start bj = nth j (pends x0 T rest) 0 /\
+            b_end bj = nth (S j) (pends x0 T rest) 0 /\
+            nth j (pends x0 T rest) 0 + 2 * tol <= nth (S j) (pends x0 T rest) 0 /\
+            (forall ts : list R,
+             ppiece_param tol o d p per1 n T k x0 rest j ts -> obj_eval tol pj ts = obj_eval tol o ts)).
+Proof. exact @obj_split_periodic. Qed.
+Print Assumptions C07_split_periodic.
+
+Theorem C07_split_periodic_needs_increasing :
+  forall (tol : R) (o : obj R) (d p per1 n : nat) (T : R) (k : list R) (x0 y : R) (fuel : nat),
+         0 < tol ->
+         wf_obj_R tol o ->
+         (d < length (o_bases o))%nat ->
+         nth d (o_bases o) dflt_basis = {| b_order := p; b_knots := k; b_per1 := per1 |} ->
+         per_canon k p per1 n T ->
+         per_strict k per1 ->
+         kn k (p - 1) <= y < x0 ->
+         x0 < kn k (n + per1) ->
+         knot_sep tol k x0 ->
+         knot_sep tol k y -> (mult k x0 <= p)%nat -> (2 <= fuel)%nat -> obj_split fuel tol o d [x0; y] = Err ValueError.
+Proof. exact @obj_split_periodic_decreasing. Qed.
+Print Assumptions C07_split_periodic_needs_increasing.
+
+Theorem C07_periodic_hypotheses_satisfiable :
+  forall rest : list R,
+         rest = [] \/ rest = [5] ->
+         psplit_hyps (1 / 100)
+           {|
+             o_bases := [{| b_order := 4; b_knots := ex_knots; b_per1 := 3 |}];
+             o_cps := [[1; 0]; [0; 1]; [-1; 0]; [0; -1]; [2; 0]; [0; 2]; [-2; 0]; [0; -2]];
+             o_dim := 2;
+             o_rat := false
+           |} 0 4 3 8 8 ex_knots (5 / 2) rest.
+Proof. exact @ex_phyps. Qed.
+Print Assumptions C07_periodic_hypotheses_satisfiable.
 
